@@ -188,6 +188,17 @@ theorem twosum_bit_exact_any_format (f : Fmt) (hf : 2 ≤ f.p ∧ 2 ≤ f.ew) (x
       qs = rne (qf f hf.1) (qx + qy) ∧ qs + qt = qx + qy :=
   twosum_bits f ⟨hf.1, hf.2⟩ x y hx hy
 
+/-- Fast2Sum on bit patterns, every format with p ≥ 2, ew ≥ 2. -/
+theorem fast2sum_bit_exact_any_format (f : Fmt) (hf : 2 ≤ f.p ∧ 2 ≤ f.ew) (x y : Nat)
+    (hx : isFiniteBits f x = true) (hy : isFiniteBits f y = true) :
+    let S := FAVerif.FP.add f y x
+    let Z := FAVerif.FP.sub f S x
+    let T := FAVerif.FP.sub f y Z
+    isFiniteBits f S = true → isFiniteBits f Z = true → isFiniteBits f T = true →
+    ∃ qx qy qs qt : ℚ, toQ f x = some qx ∧ toQ f y = some qy ∧ toQ f S = some qs ∧ toQ f T = some qt ∧
+      (|qy| ≤ |qx| → qs = rne (qf f hf.1) (qx + qy) ∧ qs + qt = qx + qy) :=
+  fast2sum_bits f ⟨hf.1, hf.2⟩ x y hx hy
+
 /-- The softfloat primitives are correctly rounded (finite operands, finite result). -/
 theorem soft_ops_correctly_rounded (f : Fmt) (hf : 2 ≤ f.p ∧ 2 ≤ f.ew) (a b : Nat) (s t : Bool) (m n : Nat) (e e' : Int)
     (ha : decode f a = .fin s m e) (hb : decode f b = .fin t n e') :
